@@ -119,27 +119,37 @@ structure Out (α : Type) where
   rows : List (Row α)
   nbLinks : Nat
 
+/-- one iteration of the loop of `_fillAF_dtw` for the pair `s = (i, j)`: `diff`, `ex`, `ey` of observation `j` are
+overwritten, `i` is appended to its `pair` list, `nb_links += 1` (`none` = IndexError) -/
+def fillStep (sqrt : α → α) (dim : Nat) (t1 t2 : List (Pt α)) (acc : Option (List (Row α) × Nat)) (s : Nat × Nat) :
+    Option (List (Row α) × Nat) :=
+  match acc with
+  | none => none
+  | some (rows, nb) =>
+    match t1[s.2]?, t2[s.1]?, rows[s.2]? with
+    | some p1, some p2, some r =>
+      some (rows.set s.2 { diff := some (distance sqrt dim p1 p2), pair := r.pair ++ [s.1],
+                           ex := some (p1.x - p2.x), ey := some (p1.y - p2.y) }, nb + 1)
+    | _, _, _ => none
+
 /-- `_fillAF_dtw`: the pairs of `S` are visited from the end of the list (the pair `(0,0)`) to its head -/
-def fillAF (sqrt : α → α) (dim : Nat) (t1 t2 : List (Pt α)) (S : List (Nat × Nat)) (score : α) : Option (Out α) := do
-  let step (acc : Option (List (Row α) × Nat)) (s : Nat × Nat) : Option (List (Row α) × Nat) := do
-    let (rows, nb) ← acc
-    let p1 ← t1[s.2]?
-    let p2 ← t2[s.1]?
-    let r ← rows[s.2]?
-    let r' : Row α := { diff := some (distance sqrt dim p1 p2), pair := r.pair ++ [s.1],
-                        ex := some (p1.x - p2.x), ey := some (p1.y - p2.y) }
-    some (rows.set s.2 r', nb + 1)
-  let (rows, nb) ← S.reverse.foldl step (some (t1.map (fun _ => {}), 0))
-  some { score := score, S := S, rows := rows, nbLinks := nb }
+def fillAF (sqrt : α → α) (dim : Nat) (t1 t2 : List (Pt α)) (S : List (Nat × Nat)) (score : α) : Option (Out α) :=
+  match S.reverse.foldl (fillStep sqrt dim t1 t2) (some (t1.map (fun _ => {}), 0)) with
+  | some (rows, nb) => some { score := score, S := S, rows := rows, nbLinks := nb }
+  | none => none
+
+/-- `_dtw` from the distance matrix to the backward step: `(T[-1,-1], S)` -/
+def dtwCore {α : Type} [LT α] [LE α] [DecidableLT α] [DecidableLE α]
+    (w : α → α → α) (z : α) (n1 n2 : Nat) (dc : List (List α)) : Option (α × List (Nat × Nat)) := do
+  let tab := table w z dc
+  let S := walk (fun i j => (cellAt tab i j).map (·.2)) (n1 + n2) (n2 - 1, n1 - 1)
+  let last ← cellAt tab (n2 - 1) (n1 - 1)      -- `T[-1,-1]`: IndexError on an empty track
+  some (last.1, S)
 
 /-- `_dtw(track1, track2, weight, dim)` -/
 def dtw (sqrt : α → α) (w : α → α → α) (dim : Nat) (t1 t2 : List (Pt α)) : Option (Out α) := do
-  let n1 := t1.length
-  let n2 := t2.length
-  let tab := table w 0 (distCols sqrt dim t1 t2)
-  let S := walk (fun i j => (cellAt tab i j).map (·.2)) (n1 + n2) (n2 - 1, n1 - 1)
-  let last ← cellAt tab (n2 - 1) (n1 - 1)      -- `T[-1,-1]`: IndexError on an empty track
-  fillAF sqrt dim t1 t2 S last.1
+  let (score, S) ← dtwCore w 0 t1.length t2.length (distCols sqrt dim t1 t2)
+  fillAF sqrt dim t1 t2 S score
 
 /-! ### `_fdtw`: best-first search with `priority_dict` -/
 
